@@ -59,6 +59,11 @@ func emitMapSites(repo string) {
 	}
 	count := map[mrSite]int{}
 	env := map[mrSite]int{}
+	// what the body of a range over a map writes into maps: for every assignment `m[…][idx] = …` in the body, the text of the
+	// (last) index expression, next to the name of the range key variable.  A "distinct keys" argument (dst[k] = v for the distinct
+	// keys k of the ranged map) needs idx to BE the key variable: `dst[f(k)] = v` lets two entries collide and the order decide
+	keyVar := map[mrSite]string{}
+	bodyIdx := map[mrSite][]string{}
 	// other ways for a run to depend on anything but its inputs: goroutines, select, clock, random numbers, process
 	// identity, environment, working directory
 	watch := map[string]bool{"time.Now": true, "time.Since": true, "time.Until": true, "os.Getpid": true, "os.Getppid": true,
@@ -112,7 +117,29 @@ func emitMapSites(repo string) {
 						return true
 					}
 					if _, ok := t.Underlying().(*types.Map); ok {
-						count[mrSite{rel, name, detExprText(p.Fset, rs.X)}]++
+						site := mrSite{rel, name, detExprText(p.Fset, rs.X)}
+						count[site]++
+						kv := "_"
+						if id, ok := rs.Key.(*ast.Ident); ok {
+							kv = id.Name
+						}
+						keyVar[site] = kv
+						ast.Inspect(rs.Body, func(b ast.Node) bool {
+							as, ok := b.(*ast.AssignStmt)
+							if !ok {
+								return true
+							}
+							for _, l := range as.Lhs {
+								if ix, ok := l.(*ast.IndexExpr); ok {
+									if xt := p.TypesInfo.TypeOf(ix.X); xt != nil {
+										if _, ok := xt.Underlying().(*types.Map); ok {
+											bodyIdx[site] = append(bodyIdx[site], detExprText(p.Fset, ix.Index))
+										}
+									}
+								}
+							}
+							return true
+						})
 					}
 					return true
 				})
@@ -141,6 +168,20 @@ func emitMapSites(repo string) {
 			sep = ""
 		}
 		fmt.Printf("  (%s, %s, %s, %d)%s\n", detLeanStr(s.pkg), detLeanStr(s.fn), detLeanStr(s.expr), count[s], sep)
+	}
+	fmt.Println("]")
+	fmt.Println("\n/-- (package, enclosing function, ranged expression, key variable, index expressions of the map assignments in the body) -/")
+	fmt.Println("def mapRangeBody : List (String × String × String × String × List String) := [")
+	for i, s := range sites {
+		sep := ","
+		if i == len(sites)-1 {
+			sep = ""
+		}
+		var qs []string
+		for _, x := range bodyIdx[s] {
+			qs = append(qs, detLeanStr(x))
+		}
+		fmt.Printf("  (%s, %s, %s, %s, [%s])%s\n", detLeanStr(s.pkg), detLeanStr(s.fn), detLeanStr(s.expr), detLeanStr(keyVar[s]), strings.Join(qs, ", "), sep)
 	}
 	fmt.Println("]")
 	var es []mrSite
